@@ -11,6 +11,7 @@ Generated:
                      validations, payload_info and correlation_id tables; enum string tables
   coq/Gen/Errors.v   ErrorReason <-> string tables, recoverable set
   coq/Gen/Consts.v   numeric / character constants read from the sources
+  coq/Gen/Dispatch.v accepted message kinds per dispatcher and phase (translator/dispatch.py)
   coq/Gen/LockLint.v sharded-map accesses whose guard is alive across an await (translator/locklint.py)
   harness/src/gen_schema.rs  Message <-> generic value conversions used by the codec driver
 """
@@ -540,6 +541,11 @@ def main():
             os.path.join(VERIF, "coq/Gen/Consts.v"): gen_consts(),
             os.path.join(VERIF, "harness/src/gen_schema.rs"): gen_rust(ms),
         }
+        import dispatch
+        try:
+            files[os.path.join(VERIF, "coq/Gen/Dispatch.v")] = dispatch.gen(read, ms["names"])
+        except dispatch.Shape as e:
+            raise Shape(str(e))
         import locklint
         try:
             files[os.path.join(VERIF, "coq/Gen/LockLint.v")] = locklint.gen(REPO)
